@@ -228,6 +228,7 @@ CHECKS["C08"] = Spec(
     variants=[(0.3, dict(gen_kw=dict(one_bucket=False)))],
     keep=("res", "tbl", "img"),
     aspects=("map", "rl", "idx"),
+    witnesses=["C08-unreadable-neighbour"],     # index-level, real multihash primary, primary files renamed away during the operation: refused => nothing changed
     nontrivial=lambda t, r: _count_ops(t, ("put",)) >= 6 and _count_ops(t, ("remove",)) >= 1 and _count_ops(t, ("flush",)) >= 2,
     rule="histories over 6-14 EQUAL-LENGTH multihash keys (digest 6-8 bytes over a 2-letter alphabet) that all fall in one bucket and share long prefixes "
          "(30 %: spread over a few buckets), inserted, overwritten (re-pointed) and removed in random order with flushes in between; after every flush the record "
@@ -1467,6 +1468,65 @@ CHECKS["C14"] = Spec(
          "no Close error; non-trivial = a resize/remove/clear while a handle is lent after >= 3 operations; distinct by sequence text",
     extra=_fc_check,
 )
+def _c07_conc(ctx):
+    """C07 over schedules: callers, flushes and collector cycles stepped through the yield points (the scenario families of C06); when everything
+    has ended and both pools are written, and again after Close and a reopen by rescan, the independent reader of the formats judges the real files."""
+    prop, tier, wd, rng = ctx["prop"], ctx["tier"], ctx["wd"], ctx["rng"]
+    C.go_build(["concdrive"])
+    scen = []
+    cdir = os.path.join(C.VERIF, "corpus", prop)
+    if os.path.isdir(cdir):
+        for fn in sorted(os.listdir(cdir)):
+            if fn.endswith(".scn"):
+                scen.append(open(os.path.join(cdir, fn)).read())
+    n = 70 if tier == "quick" else 3000
+    if ctx.get("replay") and ctx["replay"].endswith(".scn"):
+        scen, n = [open(ctx["replay"]).read()], 0
+    elif ctx.get("replay"):
+        return [], {}
+    scen += _conc_scenarios(rng, n, True)
+    res = run_conc(scen, wd, "c07conc")
+    viol, judged, with_gc = [], 0, 0
+    for txt, r, raw in res:
+        if r is None:
+            raise C.CheckError("concdrive failed: " + raw)
+        if r["stuck"] or r.get("fsck_flushed", "not run") == "not run":
+            continue            # a call that does not return is C05's / C06's matter
+        judged += 1
+        if any(e.get("point", "").startswith(("index.gc", "gc.")) for e in r.get("events", []) if isinstance(e, dict)):
+            with_gc += 1
+        bad = r["fsck_flushed"] and ("after the schedule and two flushes: " + r["fsck_flushed"])
+        if not bad and r.get("fsck_reopened", "not run") not in ("", "not run"):
+            bad = "after the schedule, Close and reopen by rescan: " + r["fsck_reopened"]
+        if bad and len(viol) < 3:
+            rp = C.save_replay(prop, "sched-%s.scn" % hashlib.sha1(txt.encode()).hexdigest()[:10],
+                               "# %s fails on the implementation: the format reader on the real files %s\n# replay: cd /verif && ./check %s --replay <this file>\n%s" % (prop, bad, prop, txt))
+            viol.append(("schedule: C07 on the real files " + bad, rp, True))
+    return viol, {"evaluations": len(scen), "distinct_nontrivial": judged, "concurrent_scenarios_judged_by_the_format_reader": judged,
+                  "samples": [{"scenario": scen[-1].strip().split("\n")}],
+                  "concurrency_rule": "the scenario families of C06 (callers, Flush, index and primary GC cycles as threads stepped through the yield points: relocation-targeted, "
+                                      "flush-vs-index-GC incl. a whole cycle inside the flush window, readers across overwrite + flush + GC, random mixes with small file limits); "
+                                      "after the end and two flushes, and again after Close and a reopen that rebuilds the table by scanning, harness/fsck reads the real files"}
+
+
+def _c07_extra(ctx):
+    if ctx.get("replay") and ctx["replay"].endswith(".scn"):
+        return _c07_conc(ctx)
+    v1, c1 = _crash_enum(dict(ctx, crash_small=True))
+    if ctx.get("replay"):
+        return v1, c1
+    v2, c2 = _c07_conc(ctx)
+    cov = dict(c1)
+    for k, v in c2.items():
+        if k in ("evaluations", "distinct_nontrivial"):
+            cov[k] = cov.get(k, 0) + v
+        elif k == "samples":
+            cov[k] = cov.get(k, []) + v
+        else:
+            cov[k] = v
+    return v1 + v2, cov
+
+
 CHECKS["C07"] = Spec(
     prop_file="C07.v",
     weights=dict(put=36, get=4, remove=14, flush=14, atflush=3, igc=9, pgc=9, reopen=5, rebits=1),
@@ -1477,8 +1537,8 @@ CHECKS["C07"] = Spec(
               (0.3, dict(weights=dict(put=40, remove=14, flush=12, pgc=5, pgcl=7, pgcb=2, igcb=8, igc=4, reopen=3)))],
     keep=("res", "tbl", "img"),
     aspects=("map", "fsck", "dir", "rl"),
-    tools=["sthdrive", "witness", "crashdrive"],
-    extra=lambda ctx: _crash_enum(dict(ctx, crash_small=True)),    # "after recovery from any crash": the independent reader runs on what every crash point leaves
+    tools=["sthdrive", "witness", "crashdrive", "concdrive"],
+    extra=_c07_extra,    # "after recovery from any crash": the independent reader runs on what every crash point leaves; "schedules": and on what concurrent schedules leave
     nontrivial=lambda t, r: _count_ops(t, ("flush",)) >= 2 and _count_ops(t, ("pgc", "igc", "pgcb", "igcb", "pgcl")) >= 1 and _count_ops(t, ("put",)) >= 4,
     rule=_KEYS_RULE + "flushes, both collectors (also budget-interrupted), reopen, writers slipping into a Flush; after every Flush, every GC cycle and every reopen an independent reader "
          "of the formats (harness/fsck) checks on the REAL files against the live bucket table: every file is a chain of records; every non-empty bucket points at a complete, non-deleted "
